@@ -1,7 +1,7 @@
 (* C01: laws of the reference source semantics (the oracle the compiled bytecode is compared with).
    The compiler itself is tied to this semantics per generated program by tools/checks/c01.py. *)
 From Coq Require Import ZArith List Bool Lia.
-From Verif Require Import C01.VyCore C01.VyLaws C01.Terminates.
+From Verif Require Import C01.VyCore C01.VyWf C01.VyLaws C01.Terminates.
 Import ListNotations.
 Open Scope Z_scope.
 
@@ -56,7 +56,7 @@ Definition demo : prog :=
   mkProg [TInt 8 false] []
     [mkFun [TInt 8 false] false [SReturn (Some (EBin Add (TInt 8 false) (EVar 0) (EConst (VInt 100))))]]
     [mkFun [TInt 8 false] false
-       [SFor 1 0 3 [SAug Add (TInt 8 false) (BSto 0) [] (ECall 0 [EVar 0])];
+       [SFor 1 0 2 [SAug Add (TInt 8 false) (BSto 0) [] (ECall 0 [EVar 0])];
         SReturn (Some (ESelf 0))]].
 Example vycore_nonvacuous :
   wf_prog demo = true /\
